@@ -22,7 +22,7 @@ CLAIMED = {
             "C08_match_is_spec, C08_branch_choice_is_spec, C08_record_guard_consistent, C08_identity (+_code_partial), C08_error_* (no default, not promotable, unknown symbol, fixed size, name mismatch, kind, no branch, items), "
             "C08_enum_default, C08_old_code_refuted_* (8 witnesses on which the code before the repairs left the specification; model/ResolveOld.v). Tie: implementation vs rdec AND vs resolve on "
             "(writer, 1..6 evolution steps, datum) through both reading routes; the hand-written witnesses of every repaired defect stay as regression cases.",
-            "PARTIAL: two zone theorems (inline schemas incl. dict-form primitives: C08_factor_zone_partial; by-name references incl. recursive types: C08_factor_zone_refs_any_height_partial, values of ANY height under the computable closed-set certificate `agree_all` (C08_zone_closed_set; depth-indexed form `agreen k` kept, monotone in k: C08_zone_depth_monotone); reader == writer through the code also with references / recursive types (C08_identity_code_refs_partial, _any_height_partial; Example: linked list of any length)), both for ANY reader options (return_record_name / return_named_type and overrides: the specification `resolve o` wraps union values by wrap_spec, proved equal to the code's wrapping), cover 100 % of the generated evaluations; outside them (logicalType annotations on non-primitive types, nested unions are no Avro schemas (spec: unions may not immediately contain unions; C08_no_union_behind_reference: no union is reached through a reference)) the statement is decided by the correspondence against `resolve`. F6, F7, F30, F31 and the earlier C08 defects are repaired in /repo (fix: commits).", "§3 C08"),
+            "PARTIAL: two zone theorems (inline schemas incl. dict-form primitives: C08_factor_zone_partial; by-name references incl. recursive types: C08_factor_zone_refs_any_height_partial, values of ANY height under the computable closed-set certificate `agree_all` (C08_zone_closed_set; depth-indexed form `agreen k` kept, monotone in k: C08_zone_depth_monotone); reader == writer through the code also with references / recursive types (C08_identity_code_refs_partial, _any_height_partial; Example: linked list of any length)), both for ANY reader options (return_record_name / return_named_type and overrides: the specification `resolve o` wraps union values by wrap_spec, proved equal to the code's wrapping), unknown logicalType annotations on array/map/named-type nodes are proved transparent for the code and for the rules on ALL inputs (C08_code_ignores_annotations, C08_spec_ignores_annotations), so both zone theorems hold with the zone checked on the schemas without them (C08_factor_zone_annot_partial, C08_factor_zone_refs_annot_partial); the proved zones cover 100 % of the generated evaluations (incl. annotated nodes and recursive types); not covered: unions immediately containing unions, which are no Avro schemas (C08_no_union_behind_reference). F6, F7, F30, F31 and the earlier C08 defects are repaired in /repo (fix: commits).", "§3 C08"),
     "C09": ("Rocq proof about the writer's union branch search as a function: chosen branch conforms, tuple and '-type' hints select exactly the named branch (error when none), first conforming non-record branch, float defers to double, most shared fields first on ties; union indices and named-type reporting vs the model + the statement evaluated on the written index",
             "Theorems (coq/props/C09.v, 13): C09_conforming, C09_function, C09_tuple_hint, C09_type_hint (+_validate), C09_first_nonrecord, C09_float_defers_to_double, C09_double_chosen, "
             "C09_most_fields_first_on_tie, C09_search_spec, C09_no_branch, C09_closure_partial. Tie: union index written by fastavro vs the model's elab on unions of primitive mixes, several "
